@@ -317,8 +317,45 @@ pub fn tok_space(with_var: bool, max_len: usize, render: Render, oracle: fn(&str
     }
 }
 
+/// String and path literals in the syntactic positions whose content is validated (include
+/// and defcalgrammar paths, literals in expressions), terminated and unterminated, with every
+/// body of at most `depth` atoms over escapes, multi-byte characters and quotes.
+pub fn literal_context_texts(depth: usize) -> Vec<String> {
+    let atoms = ["a", "0", "1", "_", "\\\\", "\\n", "\\q", "\\", "é", "😀", "\\u{", "1F", "}", "\\x", "\\\"", "'", ".inc", "/"];
+    let mut bodies = vec![String::new()];
+    let mut layer = vec![String::new()];
+    for _ in 0..depth {
+        let mut next = Vec::new();
+        for w in &layer {
+            for a in atoms {
+                next.push(format!("{}{}", w, a));
+            }
+        }
+        bodies.extend(next.iter().cloned());
+        layer = next;
+    }
+    let frames = [
+        ("include \"", "\";"),
+        ("include \"", ""),
+        ("include '", "';"),
+        ("defcalgrammar \"", "\";"),
+        ("x = \"", "\";"),
+        ("x = \"", ""),
+        ("bit[4] b = \"", "\";"),
+        ("int y; include \"", "\"; int z;"),
+    ];
+    let mut v = Vec::new();
+    for b in &bodies {
+        for (pre, post) in frames {
+            v.push(format!("{}{}{}", pre, b, post));
+        }
+    }
+    v
+}
+
 pub fn text_spaces(tier: Tier, oracle: fn(&str, &mut Ctx)) -> Vec<Box<dyn Space>> {
     let mut v: Vec<Box<dyn Space>> = Vec::new();
+    v.push(TextSpace::list("LITERAL-CONTEXT (strings and paths where their content is validated)", literal_context_texts(if tier.is_thorough() { 4 } else { 3 }), 512, oracle));
     for a in alphabets() {
         let max_len = if tier.is_thorough() { 6 } else { 5 };
         v.push(TextSpace::chars(EChar { alpha: a, max_len }, oracle));
